@@ -1,5 +1,5 @@
 """Sidecar: contracts on the real functions of /repo, keyed by file::qualname.  Nothing here edits /repo."""
-MODULES=['bits_reg','dsl','mem']
+MODULES=['bits_reg','dsl','mem','sched']
 
 def rtl_specs():
   from . import rtl_arb, rtl_queues, rtl_cksum
@@ -93,13 +93,13 @@ PROPERTIES={
    assumptions=["self and other are distinct objects without shared leaves","leaf widths are the declared ones (type invariant)"]),
  'C01': dict(level='other', engine='rtlvc',
    claim="Mixed. Proved (rtlvc, per library configuration, all states and inputs): for every stdlib design under C17/C19/C20 the settled state is a fixed point - re-running any update block or net block after evaluation changes no signal. Bounded stand-in (labelled bounded, not proved): on the design zoo (families A and C of zoo/designs.py, 214 designs: whole/slice/field/nested writers x readers x net forwarding x predecessor blocks; register designs) every scheduling pass group (default/dynamic, simple with 4 tie-break seeds, heuristic-topological, Mamba2020, unrolled) yields identical values of all signals after every evaluation and tick on seeded random inputs, and re-running any block changes nothing.",
-   note="The schedulers' own code (Kahn loops) is not yet under a discharged contract (see DESIGN.md section 6 C01): agreement across schedules is therefore bounded evidence, not proof. Trusted: AstHelper read/write extraction.",
+   note="The Kahn scheduler of SimpleSchedulePass is proved to produce a constraint-respecting permutation for every tie-break (obligations counted under C02 and here); the other schedulers, GenDAGPass and the tick composition are covered by the bounded stand-in only, so agreement across all schedules is bounded evidence, not proof. Trusted: AstHelper read/write extraction.",
    explanation="fixed-point obligations are discharged symbolically per configuration by rtlvc; schedule independence is checked natively on an exhaustively enumerated design zoo (bounded)",
    extra=['contracts:c01_extra'], require_cover=False,
    assumptions=["block footprints as extracted by AstHelper are the real ones; blocks are deterministic"]),
  'C02': dict(level='other',
-   claim="Mixed. Proved: Connectable._overlap decides bit-overlap of two index/slice ranges exactly (all integers). Bounded stand-in: on the design zoo (262 designs incl. struct fields, nested fields, overlapping slices, net forwarding, cycles, registers) GenDAGPass orders every writer block/net step before every block that reads an overlapping bit (bit ranges computed independently from the signal objects), constraint_objs covers the communicated bits, and every scheduler (dynamic; simple with 6 seeds; heuristic-topological) places each block exactly once and respects every constraint.",
-   note="GenDAGPass._process_value_constraints and the Kahn loops are not yet under discharged contracts; method constraints, WrapGreenletPass and OpenLoopCLPass are not covered. Labelled bounded.",
+   claim="Mixed. Proved: (1) SimpleSchedulePass.schedule_intra_cycle (the Kahn scheduler) - for arbitrary block sets, arbitrary constraint sets, every iteration order of the Python sets/dicts involved and every outcome of random.shuffle: on normal return update_schedule is a duplicate-free list of exactly the combinational blocks (final_upblks minus update_ff) in which every constraint (u,v) between scheduled blocks has u strictly before v, and an exception can only leave the function when not every block could be scheduled (check_schedule under its own contract); three loop invariants with ghost predecessor sets and a finite-set cardinality function; (2) Connectable._overlap decides bit-overlap of two index/slice ranges exactly (all integers). Bounded stand-in: on the design zoo (262 designs incl. struct fields, nested fields, overlapping slices, net forwarding, cycles, registers) GenDAGPass orders every writer block/net step before every block that reads an overlapping bit (bit ranges computed independently from the signal objects), constraint_objs covers the communicated bits, and every scheduler (dynamic; simple with 6 seeds; heuristic-topological) places each block exactly once and respects every constraint.",
+   note="GenDAGPass._process_value_constraints, HeuristicTopoPass, DynamicSchedulePass (SCC condensation) and Mamba2020Pass are not under discharged contracts (zoo only); lists whose order is irrelevant to the code (Q, Es[u], update_schedule) are abstracted by their element sets with duplicate-freeness proved at every append; positions are the ghost map 'number of blocks appended before'; finite-set cardinality facts (card >= 0, card = 0 iff empty, +-1 on insert/delete, subset with equal cardinality is equality) are assumed; MAMBA_DAG assumed unset; method constraints, WrapGreenletPass and OpenLoopCLPass are not covered. Labelled bounded.",
    explanation="one small function proved deductively; the pass-level contract is evaluated natively on an enumerated design zoo (bounded)",
    extra=['contracts:c02_extra'], require_cover=False, assumptions=["AstHelper read/write extraction"]),
  'C07': dict(level='other',
